@@ -71,15 +71,14 @@ VARIANTS = [
             "        else:\n            src_addr, dst_addr = self.host, self.near_host\n"},
     # ------------------------------------------------------------------ R3 validity dominates effects
     {"name": "R3 UDP-ban check deleted", "file": LP, "expect": "C06.R3",
-     "old": "        if packet.incoming:\n            self._ensure_message_allowed(message)\n", "new": ""},
+     "old": "        if packet.incoming:\n            try:\n                self._ensure_message_allowed(message)\n            except PermissionError:\n                # ACKs the sender if needed and forwards the piggy-backed ACKs\n                region.circuit.drop_message(message)\n                raise\n", "new": ""},
     {"name": "R3 UDP-ban check moved behind the handlers (seed C06/1)", "expect": "C06.R3", "edits": [
-        {"file": LP, "old": "        # Check for UDP bans on inbound messages\n        if packet.incoming:\n"
-                            "            self._ensure_message_allowed(message)\n", "new": ""},
+        {"file": LP, "old": "        if packet.incoming:\n            try:\n                self._ensure_message_allowed(message)\n            except PermissionError:\n                # ACKs the sender if needed and forwards the piggy-backed ACKs\n                region.circuit.drop_message(message)\n                raise\n", "new": ""},
         {"file": LP, "old": "        if handled:\n            return\n",
          "new": "        if packet.incoming:\n            self._ensure_message_allowed(message)\n\n        if handled:\n            return\n"}]},
     {"name": "R3 UDP-ban check applied to outgoing packets only", "file": LP, "expect": "C06.R3",
-     "old": "        if packet.incoming:\n            self._ensure_message_allowed(message)\n",
-     "new": "        if packet.outgoing:\n            self._ensure_message_allowed(message)\n"},
+     "old": "        if packet.incoming:\n            try:\n                self._ensure_message_allowed(message)\n",
+     "new": "        if packet.outgoing:\n            try:\n                self._ensure_message_allowed(message)\n"},
     {"name": "R3 _ensure_message_allowed only logs", "file": LP, "expect": "C06.R3",
      "old": '            raise PermissionError(f"UDPBanned message {msg.name}")\n', "new": ""},
     {"name": "R3 unknown circuit no longer discarded", "file": LP, "expect": "C06.R3",
@@ -96,11 +95,12 @@ VARIANTS = [
      "new": "        region = self.session.region_by_circuit_addr(packet.far_addr)\n"
             "        self.session.active_group = None\n        if not region:\n"},
     {"name": "P R3 incoming flag through a local", "file": LP, "expect": "silent",
-     "old": "        if packet.incoming:\n            self._ensure_message_allowed(message)\n",
-     "new": "        inbound = packet.incoming\n        if inbound:\n            self._ensure_message_allowed(message)\n"},
+     "old": "        if packet.incoming:\n            try:\n                self._ensure_message_allowed(message)\n",
+     "new": "        inbound = packet.incoming\n        if inbound:\n            try:\n                self._ensure_message_allowed(message)\n"},
     {"name": "P R3 ban check inlined", "file": LP, "expect": "silent",
-     "old": "        if packet.incoming:\n            self._ensure_message_allowed(message)\n",
+     "old": "        if packet.incoming:\n            try:\n                self._ensure_message_allowed(message)\n            except PermissionError:\n                # ACKs the sender if needed and forwards the piggy-backed ACKs\n                region.circuit.drop_message(message)\n                raise\n",
      "new": "        if packet.incoming:\n            if not self.message_xml.validate_udp_msg(message.name):\n"
+            "                region.circuit.drop_message(message)\n"
             "                raise PermissionError(f\"UDPBanned message {message.name}\")\n"},
     {"name": "P R3 reorder the two independent handler dispatches", "file": LP, "expect": "silent",
      "old": "        try:\n            self.session.message_handler.handle(message)\n        except:\n"
@@ -196,10 +196,10 @@ VARIANTS = [
                 "    def handle_proxied_packet(self, packet: UDPPacket):\n"}]},
     # ------------------------------------------------------------------ round 3
     {"name": "R6 falsy test of the packet id in drop_message", "file": "hippolyzer/lib/proxy/circuit.py", "expect": "C06.R6",
-     "old": "        if message.packet_id is None:\n            return\n", "new": "        if not message.packet_id:\n            return\n"},
+     "old": "        if message.packet_id is None:\n            # Never was on the wire", "new": "        if not message.packet_id:\n            # Never was on the wire"},
     {"name": "P R6 None test joined with another condition", "file": "hippolyzer/lib/proxy/circuit.py", "expect": "silent",
-     "old": "        if message.packet_id is None:\n            return\n",
-     "new": "        if message.packet_id is None or message.finalized:\n            return\n"},
+     "old": "        if message.packet_id is None:\n            # Never was on the wire",
+     "new": "        if message.packet_id is None or message.finalized:\n            # Never was on the wire"},
     {"name": "P R5 deadness spelled through the region property", "file": SE, "expect": "silent",
      "old": "                if not region.circuit or not region.circuit.is_alive:\n                    logging_hook = None\n",
      "new": "                if not region.is_alive:\n                    logging_hook = None\n"},
